@@ -59,6 +59,10 @@ var viaExtractor bool
 // guardRun is the current run (set by freeze): panics of the limiter become violations
 var guardRun *simkit.Run
 
+// rateOverride, when set while a limiter is built, is the caller's rate extractor: it returns the rates in force,
+// an empty set, or an error (in the last two cases the limiter's default rates apply)
+var rateOverride func() ([]rateSpec, error)
+
 // perSourceRates, when set while a limiter is built, gives individual sources their own rate set through the extractor
 var perSourceRates map[string][]rateSpec
 
@@ -85,7 +89,20 @@ func newTLim(rt *rapid.T, rates []rateSpec, capacity int) *tlim {
 	if capacity > 0 {
 		opts = append(opts, ratelimit.Capacity(capacity))
 	}
-	if perSourceRates != nil {
+	if rateOverride != nil {
+		ro := rateOverride
+		opts = append(opts, ratelimit.ExtractRates(ratelimit.RateExtractorFunc(func(req *http.Request) (*ratelimit.RateSet, error) {
+			rr, err := ro()
+			if err != nil {
+				return nil, err
+			}
+			rs := ratelimit.NewRateSet() // may be empty: the limiter then falls back to its default rates
+			for _, r := range rr {
+				_ = rs.Add(r.period, r.average, r.burst)
+			}
+			return rs, nil
+		})))
+	} else if perSourceRates != nil {
 		ps := perSourceRates
 		def := rates
 		opts = append(opts, ratelimit.ExtractRates(ratelimit.RateExtractorFunc(func(req *http.Request) (*ratelimit.RateSet, error) {
@@ -254,6 +271,7 @@ func drawEpoch(rt *rapid.T) time.Time {
 type admitEv struct {
 	t      time.Duration // since epoch of the run
 	amount int64
+	regime int // which configuration was in force (dynamic-rates runs)
 }
 
 // checkBound verifies, for one source and one rate, that every interval
